@@ -166,6 +166,18 @@ CLAIMS = {
         quick="VERIF_NPROC=8 ./vcheck C17 --tier quick", thorough="VERIF_NPROC=8 ./vcheck C17 --tier thorough",
         technique="explicit TLA+ spec + TLC model checking; TLC-generated request histories replayed over HTTP and judged by TLC; exhaustive fraction sweep",
     ),
+    "C18": dict(
+        spec="FsPersist.tla / FsPersistGen.tla / FsPersistJudge.tla",
+        text="The specification defines Durable(history, j) (committed state after j statements, transactions included) and the set "
+        "of states a second process may find: after a clean exit or an exception exactly Durable(n); after a kill while statement "
+        "j+1 was running Durable(j) or Durable(j+1) - never anything in between (StatementAtomic), never uncommitted work; in-memory "
+        "instances leave no file. TLC enumerates histories x every kill point between engine calls x exit modes x spelling of "
+        "the database name; a forked child process runs each on a real db_path instance (SIGKILL through the engine proxy), the "
+        "parent reopens the path and reads tables, rows, comments and VARCHAR lengths; TLC judges the recovered state.",
+        level="fault_enumeration",
+        design="6 C18",
+        technique="explicit TLA+ spec of durable state; TLC enumerates histories x kill points; fault injection at every engine-call boundary in a child process, recovered state judged by TLC",
+    ),
 }
 
 
